@@ -2,7 +2,7 @@
 use crate::conv::{to_geo, variant, wkt, Xf};
 use crate::engine::{guard, Obs, Property, Tier};
 use crate::exact::{Rat, C};
-use crate::gen::{pair_strategy, xf_strategy, Pair};
+use crate::gen::{holes_pair_strategy, nested_holes_pair_strategy, pair_strategy, xf_strategy, Pair};
 use crate::props::c01::{bbox_class, coincidence_labels};
 use crate::refgeom::de9im::de9im_info;
 use crate::refgeom::measure::dist2_seg_seg;
@@ -81,7 +81,10 @@ impl Property for C07 {
             let e = match vsel % 5 { 0 => G::Polygon(crate::refgeom::Poly::new(vec![], vec![])), 1 => G::LineString(vec![]), 2 => G::MultiPolygon(vec![]), 3 => G::MultiPoint(vec![]), _ => G::Coll(vec![]) };
             if vsel & 8 == 0 { Case { a, b: e, xf: Xf::ID, vsel, near: None, trusted: true } } else { Case { a: e, b, xf: Xf::ID, vsel, near: None, trusted: true } }
         });
-        prop_oneof![10 => general.boxed(), 1 => near.boxed(), 1 => with_empty.boxed()].boxed()
+        // 1 case in 13: the second operand inside a hole of a polygon with many holes (nested hole envelopes)
+        let in_hole = (prop_oneof![3 => holes_pair_strategy().boxed(), 1 => nested_holes_pair_strategy().boxed()], xf_strategy(), any::<u64>())
+            .prop_filter_map("empty operand", |(Pair { a, b }, xf, vsel)| if a.is_empty() || b.is_empty() { None } else { Some(Case { a, b, xf, vsel, near: None, trusted: true }) });
+        prop_oneof![10 => general.boxed(), 1 => near.boxed(), 1 => with_empty.boxed(), 1 => in_hole.boxed()].boxed()
     }
     fn quota(tier: Tier) -> u64 {
         tier.pick(1_200_000, 24_000_000)
